@@ -126,9 +126,14 @@ func c01DontCare(boxType string, body []byte, b Box) []byte {
 		if len(body) > 5 {
 			mask[5] |= vfy.IteU8(body[0] == 0, 0xff, 0)
 		}
-	case "avcC": // 14496-15 5.3.3.1: reserved '111111'b, reserved '111'b
+	case "avcC": // 14496-15 5.3.3.1: reserved '111111'b, reserved '111'b; trailing reserved '111111'b, '11111'b, '11111'b
 		c01Fill(mask, 4, 5, 0xfc)
 		c01Fill(mask, 5, 6, 0xe0)
+		if a, ok := b.(*AvcCBox); ok && !a.NoTrailingInfo && len(body) >= 11 &&
+			a.AVCProfileIndication != 66 && a.AVCProfileIndication != 77 && a.AVCProfileIndication != 88 {
+			c01Fill(mask, len(body)-4, len(body)-3, 0xfc)
+			c01Fill(mask, len(body)-3, len(body)-1, 0xf8)
+		}
 	case "avc1", "avc3", "hvc1", "hev1", "encv", "vp08", "vp09", "av01":
 		// 8.5.2 SampleEntry reserved(8)[6]; 12.1.3 VisualSampleEntry pre_defined(16), reserved(16),
 		// pre_defined(32)[3], reserved(32), compressorname padding, pre_defined(16) = -1
